@@ -478,7 +478,7 @@ def _w_scalar(k, p):
             return [lo, lo + 1, lo + 100]
         if hi is not None:
             return [hi, hi - 1, hi - 100]
-        return [0, -1, 7, 2 ** 70]
+        return [0, -1, 7, 2 ** 70]     # 0 first: falsy values are witnesses too
     if k == "float":
         lo, hi = p.get("min"), p.get("max")
         if lo is not None and hi is not None:
